@@ -6,7 +6,7 @@ package leasetime
 
 // C19: the configured default lease time can be honoured on the wire (option 51 is an unsigned
 // 32-bit number of seconds): a negative or longer duration must be rejected at start-up
-//@ plugin-invariant[setup4,Handler4] 0 <= v4LeaseTime && v4LeaseTime <= 4294967295000000000
+//@ plugin-invariant[setup4,Handler4] 0 <= v4LeaseTime && v4LeaseTime < 4294967296000000000
 
 //@ func Handler4
 //@   implements handler.Handler4
